@@ -105,6 +105,12 @@ class Ctx:
             Obligation(name, serves, list(self.static) + list(self.pc), goal, self.fn, self.path_label(), kind, note)
         )
 
+    def cover(self, name):
+        """non-vacuity: the current path condition must be satisfiable (decided in a finite scope)"""
+        if len(self.dec) < len(self.prefix) or self.binder:
+            return
+        self.obl.append(Obligation(name, (), list(self.static) + list(self.pc), z3.BoolVal(False), self.fn, self.path_label(), "cover"))
+
     def check_all(self, clauses, prefix="", serves=(), kind="assert"):
         for cl in clauses:
             name, goal = cl[0], cl[1]
